@@ -42,6 +42,9 @@ PASS2KEY_MAP = {
 }
 
 
+RE_DEVICE_ID = re.compile(r"\d+(:\d+)?")
+
+
 class VMX:
     def __init__(self, attr: dict[str, str]):
         self.attr = attr
@@ -115,8 +118,12 @@ class VMX:
                     # disks to store the properties and their values.
                     # Properties for the bus device are stored with the unique
                     # <bus_id> key.
-                    device, dev_property = vm_setting.split(".", 1)
+                    device, _, dev_property = vm_setting.partition(".")
                     dev_id = device.lstrip(dev_class)
+
+                    if not dev_property or not RE_DEVICE_ID.fullmatch(dev_id):
+                        # Some other setting that merely starts with the same letters (e.g. ideal, sataFoo0:1.bar)
+                        break
 
                     dev_ids = devices.setdefault(dev_class, {})
                     dev_properties = dev_ids.setdefault(dev_id, {})
